@@ -288,6 +288,26 @@ theorem C04_htlc_raw_signs_recomposed {M' S' : Type} [DecidableEq M'] (crh : Htl
     exact (Decidable.of_not_not heq).symm
   · cases h
 
+omit [DecidableEq H] in
+/-- **C04_htlc_raw_key_of_request.**  The signature the raw second-stage entry point returns is under the HTLC key
+    derived from the per-commitment point *of the request* — the point whose keys the supplied transaction and its
+    scripts were validated with — and over the recomposed BOLT-3 transaction of those keys; the points the enforcement
+    state recorded for the commitments signed last play no role (two states, same result).  This is the clause
+    "verifies under the channel's own HTLC key" for HTLC transactions of a commitment other than the last one signed. -/
+theorem C04_htlc_raw_key_of_request {M' S' : Type} [DecidableEq M'] (crh : HtlcCrypto H M' S')
+    (polOk : Nat → Bool → Nat → Bool) (keysOf : Nat → Keys) (htlcKeyOf : Nat → Key) (st st' : CpPoints)
+    (s : Setup) (point : Nat) (tx : StageTx H) (redeem : Script) (amount : Nat) :
+    signCounterpartyHtlcTx wsh crh polOk keysOf htlcKeyOf st s point tx redeem amount
+      = signCounterpartyHtlcTx wsh crh polOk keysOf htlcKeyOf st' s point tx redeem amount ∧
+    ∀ sig, signCounterpartyHtlcTx wsh crh polOk keysOf htlcKeyOf st s point tx redeem amount = .ok sig →
+      ∃ offered i v, redeemSide s redeem = some offered ∧ tx.inputs.head? = some i ∧
+        sig = crh.sign (htlcKeyOf point)
+          (crh.sighash (recomposeStage wsh s (keysOf point) i offered tx.locktime v) redeem amount s.ctype.isAnchors) := by
+  refine ⟨rfl, fun sig h => ?_⟩
+  obtain ⟨offered, i, v, h1, h2, _, _, h5⟩ :=
+    C04_htlc_raw_signs_recomposed wsh crh polOk (htlcKeyOf point) s (keysOf point) tx redeem amount sig h
+  exact ⟨offered, i, v, h1, h2, h5⟩
+
 /-- **C04_restart_same_sig.**  A restart does not change what is signed: persisting a channel and
     restoring it (`Node::new_from_persistence`: stored `ChannelSetup` + stored `channel_value_satoshis`)
     is the identity on the setup, so both entry points return, before and after a restart, the same
